@@ -18,6 +18,21 @@ CHECKS = {
          "DESIGN.md §3 C01",
          "Trusts the harness reference codec (harness/src/refcodec.rs) as a faithful transcription of RFC 23.",
          "property-based testing (proptest) + exhaustive boundary grid, differential against a reference codec"),
+ "C02": ("exploration",
+         "Metamorphic + differential: the library's real framed reader is driven over reference-encoded item sequences under ALL partitions of short streams, every cut / pair of cuts of medium streams and random partitions of long ones; items, end-of-stream kind and decoder state must equal the one-read run and an independent reference parse. Socket level: data sharing a segment with the end of the handshake must be the first recv for 7 socket types.",
+         "DESIGN.md §3 C02",
+         "Trusts the reference parser; reads are capped at the framed reader's own 8 KiB buffer; exhaustive only for the stated stream lengths.",
+         "property-based testing (proptest) + exhaustive partition enumeration; metamorphic (segmentation-invariance) and differential oracles"),
+ "C03": ("fault_enumeration",
+         "Hostile byte streams (exhaustive small alphabets, a catalogue of malformed greetings/commands/huge declared sizes/frame floods, proptest structure-aware mutations, random bytes) are fed to the real framed reader on small-stack threads under a counting allocator, and at every handshake stage of all 9 socket types and through proxy(); a supervising parent process turns aborts, stack overflows and allocation bombs into replayable violations. Held on everything explored.",
+         "DESIGN.md §3 C03, §2.6",
+         "Stack and memory bounds are sensitivity choices stated in the evidence; only inputs the generators reach are covered.",
+         "fuzzing / fault enumeration with crash isolation: exhaustive small alphabets + structure-aware mutation (proptest), oracles: no panic/abort, heap growth proportional to bytes received"),
+ "C19": ("exploration",
+         "Exhaustive enumeration of every string up to length 5 (thorough: 6) over a 15-symbol alphabet after tcp:// and ipc://, a cross product of address/port forms, and proptest grammar-based and Unicode strings, compared with an independent three-valued reference parser (must-accept with value / must-reject / unspecified) plus parse-format-parse equality.",
+         "DESIGN.md §3 C19",
+         "Strings with a newline and borderline address literals are treated as unspecified; the reference parser is the harness's reading of the statement.",
+         "property-based testing (proptest) + exhaustive small-alphabet enumeration, differential against a reference parser, round-trip law"),
 }
 
 PENDING = {
